@@ -137,6 +137,8 @@ def checkRs (cfg : RsCfg) (sc : Nat → Call) (evs : List IEv) (A : Abs) : List 
     match (if paused then none else A.susp) with
     | some (_, c) =>
       if c0 != c then v := v ++ ["C06.same_ctx"]
+      -- C07: the prekill-hook window is counted from when the chain fired - a resumed chain keeps its deadline
+      if c0.2.2.2 != c.2.2.2 then v := v ++ ["C07.deadline_kept_while_waiting"]
       -- a resumed chain still belongs to the ruleset and to the group that fired it
       if c0.1 != c.1 || c0.2.1 != c.2.1 then v := v ++ ["C02.context_resumed"]
     | none =>
@@ -145,7 +147,7 @@ def checkRs (cfg : RsCfg) (sc : Nat → Call) (evs : List IEv) (A : Abs) : List 
         if c0.1 != s!"r{cfg.rid}" || c0.2.1 != s!"g{g.gid}" then v := v ++ ["C02.context"]
         if A.seen.contains c0.2.2.1 then v := v ++ ["C06.fresh_uuid"]
         match fireTime? with
-        | some ft => if c0.2.2.2 != Int.ofNat (ft + cfg.hookTimeout) then v := v ++ ["C06.deadline"]
+        | some ft => if c0.2.2.2 != Int.ofNat (ft + cfg.hookTimeout) then v := v ++ ["C06.deadline", "C07.deadline_at_chain_fire"]
         | none => pure ()
       | none => pure ()
     if !seen.contains c0.2.2.1 then seen := seen ++ [c0.2.2.1]
